@@ -10,6 +10,7 @@
 
 use crate::lpsolver::basis::Basis;
 use crate::lpsolver::matrix::Matrix;
+use crate::lpsolver::simplex_primal::PrimalSimplex;
 use crate::lpsolver::types::{LpConfig, LpError, LpProblem, LpSolution, LpStatus};
 
 /// Dual Simplex solver
@@ -46,32 +47,36 @@ impl DualSimplex {
     ///
     /// Requires: Initial basis must be dual-feasible (all reduced costs ≤ 0)
     /// but may be primal-infeasible (some basic variables < 0)
+    ///
+    /// The basis in `problem.basic_indices` refers to the standard form of the Primal
+    /// Simplex (which also produced it). It may come from the same problem or from the
+    /// problem before constraints were appended. If it cannot be used as a dual-feasible
+    /// starting basis (wrong size, singular, or not dual feasible because the objective or
+    /// the matrix changed), the problem is solved from scratch with the Primal Simplex.
     pub fn solve(&mut self, problem: &LpProblem) -> Result<LpSolution, LpError> {
         // Start timing for timeout checking
         let start_time = std::time::Instant::now();
         
         problem.validate()?;
 
-        // Convert to standard form: Ax = b, x >= 0
-        let (a, c, n_total) = self.to_standard_form(problem);
-        let b = &problem.b;
-        let n_vars = problem.n_vars;
-        let m = problem.n_constraints;
+        // Convert to the same standard form as the primal solver: Ax = b, x >= 0
+        // (lower bounds shifted to zero, one row and slack per finite upper bound)
+        let mut primal = PrimalSimplex::new(self.config.clone());
+        let (a, b, c, n_total) = primal.to_standard_form(problem);
+        let m = a.rows;
 
         // Use provided basis if available (warm start)
-        let mut basis = if let Some(ref basic_indices) = problem.basic_indices {
-            // Construct basis from provided indices
-            let basic = basic_indices.clone();
-            let nonbasic: Vec<usize> = (0..n_total)
-                .filter(|idx| !basic.contains(idx))
-                .collect();
-            
-            let mut b = Basis::from_indices(basic, nonbasic);
-            b.factorize(&a, &self.config)?;
-            b
-        } else {
-            // No warm start - use primal simplex instead
-            return Err(LpError::NumericalInstability);
+        let basic_indices = match problem.basic_indices {
+            Some(ref basic_indices) => basic_indices,
+            None => {
+                // No warm start - use primal simplex instead
+                return Err(LpError::NumericalInstability);
+            }
+        };
+        
+        let mut basis = match self.warm_start_basis(problem, basic_indices, &a, &c)? {
+            Some(basis) => basis,
+            None => return primal.solve(problem),
         };
 
         // Dual simplex iterations
@@ -100,29 +105,17 @@ impl DualSimplex {
                 }
             }
             
-            // Compute current basic solution
-            let x_basic = basis.solve_basic(b)?;
-            
-            // Build full solution vector
-            let mut x = vec![0.0; n_total];
-            for (i, &var_idx) in basis.basic.iter().enumerate() {
-                x[var_idx] = x_basic[i];
-            }
+            // Compute current basic solution (one value per variable, non-basic are 0)
+            let x = basis.solve_basic(&b)?;
 
             // Check primal feasibility
-            if basis.is_primal_feasible(&x_basic, self.config.feasibility_tol) {
+            if basis.is_primal_feasible(&x, self.config.feasibility_tol) {
                 // Dual-feasible and primal-feasible => optimal
-                let objective = basis.objective_value(&c, &x);
-                return Ok(LpSolution::new(
-                    LpStatus::Optimal,
-                    objective,
-                    x[..n_vars].to_vec(),
-                    iterations,
-                    basis.basic.clone(),
-                ));
+                return Ok(self.finish(problem, LpStatus::Optimal, &c, x, iterations, &basis));
             }
 
-            // Find leaving variable (most negative basic variable)
+            // Find leaving variable (most negative basic variable), as a position in the basis
+            let x_basic: Vec<f64> = basis.basic.iter().map(|&idx| x[idx]).collect();
             let leaving_idx = self.find_leaving_variable(&x_basic)?;
 
             // Compute dual direction: row of B^(-1)A corresponding to leaving variable
@@ -145,18 +138,21 @@ impl DualSimplex {
             }
 
             // Find entering variable using dual ratio test
-            let entering = self.find_entering_variable(
+            let entering_nonbasic_idx = match self.find_entering_variable(
                 &basis,
                 &a,
                 &c,
                 &dual_direction,
-            )?;
+            )? {
+                Some(idx) => idx,
+                None => {
+                    // The leaving row reads x_r + sum_j d_j x_j = (negative value) with every
+                    // d_j >= 0: no x >= 0 satisfies it, so the problem is infeasible
+                    return Ok(self.finish(problem, LpStatus::Infeasible, &c, x, iterations, &basis));
+                }
+            };
 
             // Perform basis swap
-            let entering_nonbasic_idx = basis.nonbasic.iter()
-                .position(|&idx| idx == entering)
-                .ok_or(LpError::NumericalInstability)?;
-            
             basis.swap(entering_nonbasic_idx, leaving_idx);
             basis.factorize(&a, &self.config)?;
         }
@@ -165,33 +161,94 @@ impl DualSimplex {
         Err(LpError::NumericalInstability)
     }
 
-    /// Convert problem to standard form by adding slack variables
-    fn to_standard_form(&self, problem: &LpProblem) -> (Matrix, Vec<f64>, usize) {
+    /// Build the starting basis from the basic indices of a previous solve
+    ///
+    /// The previous problem has the same variables and bounds and the first `m_prev` of the
+    /// current constraints. Its standard form has the columns
+    /// `[n variables | m_prev constraint slacks | k upper-bound slacks]`, the current one
+    /// `[n variables | m constraint slacks | k upper-bound slacks]`: upper-bound slacks move
+    /// up by `m - m_prev` and the slacks of the appended constraints join the basis.
+    ///
+    /// Returns `None` if the indices do not describe a dual-feasible basis of the problem.
+    fn warm_start_basis(
+        &self,
+        problem: &LpProblem,
+        basic_indices: &[usize],
+        a: &Matrix,
+        c: &[f64],
+    ) -> Result<Option<Basis>, LpError> {
         let n = problem.n_vars;
         let m = problem.n_constraints;
-        let n_total = n + m;
-
-        // Create extended constraint matrix [A | I]
-        let mut a_extended = Matrix::zeros(m, n_total);
+        let n_upper_bounded = a.rows - m;
+        let n_total = a.cols;
         
-        for i in 0..m {
-            for j in 0..n {
-                a_extended.set(i, j, problem.a[i][j]);
+        if basic_indices.len() < n_upper_bounded || basic_indices.len() > a.rows {
+            return Ok(None);
+        }
+        let m_prev = basic_indices.len() - n_upper_bounded;
+        
+        let mut basic: Vec<usize> = basic_indices.iter()
+            .map(|&idx| if idx < n + m_prev { idx } else { idx + (m - m_prev) })
+            .collect();
+        basic.extend(n + m_prev..n + m);
+        
+        let mut is_basic = vec![false; n_total];
+        for &idx in &basic {
+            if idx >= n_total || is_basic[idx] {
+                return Ok(None);
             }
+            is_basic[idx] = true;
+        }
+        let nonbasic: Vec<usize> = (0..n_total).filter(|&idx| !is_basic[idx]).collect();
+        
+        let mut basis = Basis::from_indices(basic, nonbasic);
+        match basis.factorize(a, &self.config) {
+            Ok(()) => {}
+            Err(LpError::SingularBasis) | Err(LpError::NumericalInstability) => return Ok(None),
+            Err(e) => return Err(e),
         }
         
-        for i in 0..m {
-            a_extended.set(i, n + i, 1.0);
+        let reduced_costs = basis.compute_reduced_costs(a, c)?;
+        if !basis.is_dual_feasible(&reduced_costs, self.config.optimality_tol) {
+            return Ok(None);
         }
+        
+        Ok(Some(basis))
+    }
 
-        // Extend objective vector
-        let mut c_extended = problem.c.clone();
-        c_extended.extend(vec![0.0; m]);
-
-        (a_extended, c_extended, n_total)
+    /// Build the solution in terms of the original variables: x = x' + l
+    fn finish(
+        &self,
+        problem: &LpProblem,
+        status: LpStatus,
+        c: &[f64],
+        x: Vec<f64>,
+        iterations: usize,
+        basis: &Basis,
+    ) -> LpSolution {
+        let n_vars = problem.n_vars;
+        let mut objective = basis.objective_value(c, &x);
+        let mut x_original = x[..n_vars].to_vec();
+        for j in 0..n_vars {
+            x_original[j] += problem.lower_bounds[j];
+            objective += problem.c[j] * problem.lower_bounds[j];
+        }
+        
+        let mut solution = LpSolution::new(
+            status,
+            objective,
+            x_original,
+            iterations,
+            basis.basic.clone(),
+        );
+        solution.stats.n_variables = problem.n_vars;
+        solution.stats.n_constraints = problem.n_constraints;
+        solution
     }
 
     /// Find leaving variable (most negative basic variable for dual simplex)
+    ///
+    /// `x_basic` holds one value per basis position; returns a position in the basis
     fn find_leaving_variable(&self, x_basic: &[f64]) -> Result<usize, LpError> {
         let mut best_idx = None;
         let mut most_negative = -self.config.feasibility_tol;
@@ -210,35 +267,42 @@ impl DualSimplex {
     ///
     /// For dual simplex, we need to maintain dual feasibility (reduced costs ≤ 0)
     /// The ratio test ensures this while improving primal feasibility
+    ///
+    /// `dual_direction` is the row of B^(-1)A of the leaving variable, indexed by variable.
+    /// Returns the position of the entering variable in the nonbasic list, or None if no
+    /// variable can enter (the problem is infeasible)
     fn find_entering_variable(
         &self,
         basis: &Basis,
         a: &Matrix,
         c: &[f64],
         dual_direction: &[f64],
-    ) -> Result<usize, LpError> {
-        // Compute reduced costs for non-basic variables
+    ) -> Result<Option<usize>, LpError> {
+        // Compute reduced costs for non-basic variables (one per position in basis.nonbasic)
         let reduced_costs = basis.compute_reduced_costs(a, c)?;
 
         let mut best_idx = None;
         let mut best_ratio = f64::INFINITY;
 
-        // Dual ratio test: min { c_j / d_j : d_j > 0 }
-        // where c_j is reduced cost and d_j is dual direction
-        for &j in &basis.nonbasic {
+        // The leaving variable has a negative value and increases only if a non-basic
+        // variable with a negative entry d_j in its row is raised from zero.
+        // Dual ratio test: min { c_j / d_j : d_j < 0 }
+        // where c_j <= 0 is the reduced cost and d_j is the dual direction
+        for (k, &j) in basis.nonbasic.iter().enumerate() {
             let d_j = dual_direction[j];
             
-            if d_j > self.config.feasibility_tol {
-                let ratio = reduced_costs[j] / d_j;
+            if d_j < -self.config.feasibility_tol {
+                // Reduced costs are <= 0 up to the optimality tolerance
+                let ratio = reduced_costs[k].min(0.0) / d_j;
                 
-                if ratio >= 0.0 && ratio < best_ratio {
+                if ratio < best_ratio {
                     best_ratio = ratio;
-                    best_idx = Some(j);
+                    best_idx = Some(k);
                 }
             }
         }
 
-        best_idx.ok_or(LpError::NumericalInstability)
+        Ok(best_idx)
     }
 }
 
